@@ -43,6 +43,7 @@ type Config struct {
 	EnterExtra  map[string]bool
 	Trace       bool
 	NoFeasCheck bool
+	ForceFeas   bool // keep solver feasibility checks at branches even where drivers default to none
 	TokenASCII  bool
 	MaxStates   int
 	DeclsMax    int // d: max declarations from ParseDeclarations
